@@ -64,11 +64,11 @@ let suite_oracle (line : string) : string =
     let seg omc =
       let q ty b = ores_s zs (M.px_price_of_type f ty b omc) in
       let pc ty = ores_s (fun (p, ci) -> zs p ^ " " ^ zs ci) (M.px_price_and_conf f ty omc) in
-      String.concat " " [
+      Stdlib.String.concat " " [
         q M.TimeWeighted None; q M.TimeWeighted (Some M.PLow); q M.TimeWeighted (Some M.PHigh);
         q M.RealTime None; q M.RealTime (Some M.PLow); q M.RealTime (Some M.PHigh);
         ";"; pc M.TimeWeighted; ";"; pc M.RealTime ] in
-    String.concat " | " (head :: Stdlib.List.map seg omcs)
+    Stdlib.String.concat " | " (head :: Stdlib.List.map seg omcs)
 
 let rec firstn n l = if n <= 0 then [] else match l with [] -> [] | x :: r -> x :: firstn (n - 1) r
 
@@ -79,14 +79,14 @@ let suite_oraclerisk (line : string) : string =
   let setup = Z.to_int (big_of_z c.cfg.M.oc_setup) in
   (* get_remaining_accounts_per_bank - 1: Fixed 0, staked 3, venue 2, others 1 *)
   let expected = (match setup with 8 -> 0 | 5 -> 3 | 6 | 7 | 9 | 10 | 11 | 12 -> 2 | _ -> 1) in
-  if Stdlib.List.length c.ais < expected then String.concat " | " ["NEW:E6051"; "NEW:E6051"; "NEW:E6051"]
+  if Stdlib.List.length c.ais < expected then Stdlib.String.concat " | " ["NEW:E6051"; "NEW:E6051"; "NEW:E6051"]
   else
     let pf = load c (firstn expected c.ais) in
     let one req =
       ores_s (fun (a, l) -> zs a ^ " " ^ zs l)
         (M.px_single_balance_components (side <> 0) isolated reduce_only req pf c.cfg.M.oc_max_conf
            (zi (match setup with 9 | 10 -> 9 | _ -> 0))) in
-    String.concat " | " [one M.RInitial; one M.RMaintenance; one M.REquity]
+    Stdlib.String.concat " | " [one M.RInitial; one M.RMaintenance; one M.REquity]
 
 (* the real liquidate / receivership handlers with one doctored oracle: a feed error surfaces through the
    liquidatee's maintenance health check (try_get_price_feed mapping), otherwise the price guards decide *)
